@@ -34,30 +34,48 @@ THEOREMS = [
     "RedunModel.C14.dec_left_inverse",
     "RedunModel.C14.decode_total",
     "RedunModel.C14.dec_accepts_non_encodings",
+    # the int -> decimal digit cap (str() beyond 4300 digits raises: rejected, never written in another base)
+    "RedunModel.C14.intFits_iff",
+    "RedunModel.C14.enc_unique_parse_encodable",
+    "RedunModel.C14.enc_injective_encodable",
+    "RedunModel.C14.enc_prefix_free_encodable",
+    "RedunModel.C14.encodeE_ok_iff",
+    "RedunModel.C14.encodeE_value_iff",
+    "RedunModel.C14.encodeE_injective",
+    "RedunModel.C14.rejects_beyond_cap",
+    "RedunModel.C14.rejects_beyond_cap_nested",
+    "RedunModel.C14.accepts_within_cap",
 ]
 TRUSTED = [
     "modelled, not verified: Python int->decimal text (str(int)), str.encode() (UTF-8), sorted() on dict items "
     "(stable total-order sort; code-point order of str keys = byte order of their UTF-8; a str/bytes key mix of two or more "
     "items always raises TypeError), BytesIO (read/seek/tell; seek(-1, SEEK_CUR) at position 0 stays at 0), CPython int() on a "
     "bytes-like argument (base 10: ASCII whitespace, one sign, digits with single underscores), Py_ssize_t = 64 bit "
-    "(f.read(n) raises OverflowError for n >= 2**63)",
+    "(f.read(n) raises OverflowError for n >= 2**63), sys.get_int_max_str_digits() = 4300 on Python >= 3.11 (str(int) and "
+    "int(bytes) raise ValueError beyond 4300 digits; the model's intMaxStrDigits; the driver's linear-time digit routine is "
+    "swapped in by a proved @[csimp] equation)",
     "SHA-512/160 collision freedom is outside the claim: the theorems are about the bytes fed to the hash",
 ]
 ASSUMPTIONS = [
     "values are finite and acyclic; no lone surrogates in str (encode() would raise UnicodeEncodeError)",
     "values are int/str/bytes/list/tuple/dict; dict keys are str, bytes, or of a type bencode rejects (int, tuple, None): other "
     "Iterables (sets, generators) and buffer-like hashable keys (memoryview) are outside the statement's quantifier",
-    "ints have at most sys.get_int_max_str_digits() = 4300 decimal digits: beyond that str(int) (bencode) and int(bytes) (bdecode) "
-    "both raise ValueError; the model has no such limit and the generators stay below it",
+    "a structure holding both a cause of TypeError and an int beyond the 4300-digit cap is rejected by code and model, but which "
+    "exception class surfaces depends on the writing order and is not modelled (model: TypeError): only rejected-vs-accepted is "
+    "compared for those (fixed corpus cases; the random generator never mixes the two)",
     "decoder inputs nest at most ~150 deep (RecursionError of the recursive bdecode cannot be exhibited by the model)",
-    "dec_enc assumes every byte string is shorter than 2**63 bytes (Fits; CPython cannot build a longer one)",
+    "dec_enc assumes Fits: every byte string shorter than 2**63 bytes (CPython cannot build a longer one) and every int within "
+    "the 4300-digit cap (beyond it bencode raises ValueError: rejects_beyond_cap)",
     "the str-vs-bytes guess of _decode_buffer (valid UTF-8 => str) is not in the model: decoded strings and dict keys are "
     "compared as bytes (the statement's 'other than by str versus utf-8 bytes')",
 ]
 RULE = ("structures generated from one PRNG over int/str/bytes/list/tuple/dict(str or bytes keys) plus a malformed stream "
         "(bool/None/float leaves, int/tuple/mixed keys) and adversarial boundary-shift pairs; every case is encoded by the real "
         "bencode and by the Lean model (byte-exact comparison), decoded back by the real bdecode, and entered into a table "
-        "encoding->canonical form to look for collisions. Decoder: every distinct encoding, alone and followed by other bytes, and a "
+        "encoding->canonical form to look for collisions. Ints at and beyond the str() digit cap (10**4299, 10**4300-1, 10**4300, "
+        "16**3600, 2**14400, negatives, hex forms full of e/a) bare and nested in lists/dicts, in the corpus and with probability 4% per "
+        "scalar; pairs (n, m) where the hex digits of n (beyond the cap) are the decimal digits of m (within it) go through the same "
+        "table: accept-vs-reject, the exception class and the bytes are compared with the model's encodeE. Decoder: every distinct encoding, alone and followed by other bytes, and a "
         "malformed byte stream (fixed corpus; every string over {0,1,7,space,-,+,_,newline,x} up to length 3 (quick) / 4 (thorough) "
         "between i and e; mutated encodings: truncated, byte dropped/inserted/replaced, slice duplicated, trailing bytes; length "
         "prefixes with leading zeros, underscores, 2**63-1, 2**63, 10**k; hand-built dicts with unsorted/duplicate/non-string keys and "
@@ -67,7 +85,10 @@ RULE = ("structures generated from one PRNG over int/str/bytes/list/tuple/dict(s
 LEVEL_TEXT = ("Lean theorems, all full strength, over ALL structures (any depth, any size; injectivity over all pairs): "
               "enc_unique_parse (an encoding followed by anything determines structure and rest) with corollaries enc_injective, "
               "enc_prefix_free, encList_injective, enc_norm_eq_iff; norm_str_bytes / norm_list_tuple (the only identifications); "
-              "rejects_bool / rejects_none / rejects_float / rejects_in_list / rejects_nonstring_key; dict_key_order_irrelevant "
+              "rejects_bool / rejects_none / rejects_float / rejects_in_list / rejects_nonstring_key; the str() digit cap: encodeE = bencode "
+              "with its exception class, encodeE_ok_iff / encodeE_value_iff, rejects_beyond_cap(_nested) / accepts_within_cap / intFits_iff "
+              "(|z| >= 10**4300 is rejected with ValueError at any depth, below it encoded), encodeE_injective and "
+              "enc_{unique_parse,injective,prefix_free}_encodable (the same theorems restricted to what bencode emits); dict_key_order_irrelevant "
               "(+ _nodup, _bytes): norm of a dict is invariant under every permutation of its item list, error cases included "
               "(bytesLt proved a strict total order, insertItem commutes for distinct keys); norm_sorted (every dict inside norm's result "
               "has strictly increasing keys, wfDict_keys_pairwise) and therefore sorted_dict_unique / norm_same_finmap (Python dicts equal "
@@ -81,14 +102,73 @@ LEVEL_TEXT = ("Lean theorems, all full strength, over ALL structures (any depth,
 LEVEL_NOTE = ("The model is hand-written. Modelled, not verified: str(int), int(bytes), str.encode, sorted, BytesIO. bdecode's str-vs-bytes "
               "guess is outside the model (results compared as bytes). Dict results are compared as Python dicts (last binding wins, sorted by "
               "key bytes = canonD); the model's raw item sequence is only visible through `decraw`. Not exhibited by the model: RecursionError "
-              "on deep nesting, the 4300-digit limit of int()/str(), MemoryError, non-seekable streams (the peek branch of bdecode), text (str) "
+              "on deep nesting, a non-default sys.set_int_max_str_digits(), MemoryError, non-seekable streams (the peek branch of bdecode), text (str) "
               "input to bdecode. hash_struct = sha512(bencode(x))[:40]: the hash itself is outside the claim.")
 TECHNIQUE = "Lean 4 proofs (unique parsing, permutation invariance, decode∘encode) on a model of bencode/bdecode + differential testing on structures and malformed bytes"
 
 
+# ------------------------------------------------------------------ big ints
+# Python >= 3.11 refuses int <-> decimal text beyond sys.get_int_max_str_digits() (4300) digits: str(n), repr(n), "%d" % n and
+# int(b"...") raise ValueError.  bencode therefore REJECTS such ints (ValueError out of _encode_int); the harness must never
+# print one in decimal either: `rep` and the `h<hex>` protocol atom use hex, which is exempt.
+CAP = 4300
+CAP_POW = 10 ** CAP          # smallest |n| that str() refuses
+
+
+def over_cap(v):
+    """does the structure hold an int that str() refuses?"""
+    if isinstance(v, bool):
+        return False
+    if isinstance(v, int):
+        return abs(v) >= CAP_POW
+    if isinstance(v, (list, tuple)):
+        return any(over_cap(x) for x in v)
+    if isinstance(v, dict):
+        return any(over_cap(x) for x in v.values()) or any(over_cap(k) for k in v if isinstance(k, (int, tuple)))
+    return False
+
+
+def rep(v):
+    """repr that never converts a big int to decimal"""
+    if isinstance(v, bool) or v is None or isinstance(v, (float, str, bytes)):
+        return repr(v)
+    if isinstance(v, int):
+        return repr(v) if abs(v) < 10 ** 60 else ("-0x%x" % -v if v < 0 else "0x%x" % v)
+    if isinstance(v, list):
+        return "[" + ", ".join(rep(x) for x in v) + "]"
+    if isinstance(v, tuple):
+        return "(" + ", ".join(rep(x) for x in v) + ("," if len(v) == 1 else "") + ")"
+    if isinstance(v, dict):
+        return "{" + ", ".join(rep(k) + ": " + rep(x) for k, x in v.items()) + "}"
+    return repr(v)
+
+
+def int_atom(n):
+    return "i%d" % n if abs(n) < 10 ** 50 else ("h-%x" % -n if n < 0 else "h%x" % n)
+
+
+def digit_twins(rng):
+    """pairs (n, m): the hex digits of n are the decimal digits of m, n beyond the cap, m within it -- the pair that
+    collides if an int is ever written in hex between `i` and `e`; plus hex forms holding `e` and other letters."""
+    out = []
+    for h in ["1" * 4000, "9" * 3600, "1" + "0" * 3600, "7" * CAP,
+              "1" + "".join(rng.choice("0123456789") for _ in range(rng.randrange(3580, CAP - 1)))]:
+        n, m = int(h, 16), int(h)        # 3573+ hex digits => n >= 16**3572 > 10**4300; at most 4300 decimal digits => m prints
+        assert abs(n) >= CAP_POW > abs(m)
+        out.append((n, m))
+    return out
+
+
+BIG_INTS = [CAP_POW - 1, -(CAP_POW - 1), 10 ** (CAP - 1), CAP_POW, -CAP_POW, CAP_POW + 1, 10 ** (CAP + 1), -(10 ** 5000),
+            16 ** 3600, -(16 ** 3600), 2 ** 14400, int("e" * 3600, 16), int("1e" * 1800, 16), int("a" * 3600, 16),
+            int("1" * 4000, 16), -int("1" * 4000, 16), int("1" * 4000), -int("1" * 4000), 10 ** 4000, 10 ** 2000 + 1]
+
+
 # ------------------------------------------------------------------ generator
-def gen_scalar(rng):
+def gen_scalar(rng, big=False):
     k = rng.random()
+    if big and k < 0.04:
+        return rng.choice(BIG_INTS)
     if k < 0.3:
         return rng.choice([0, 1, -1, 9, 10, -10, 99, 100, 255, 256, -256, 10 ** 20, -(10 ** 20) - 7, rng.randrange(-10 ** 6, 10 ** 6)])
     if k < 0.65:
@@ -102,17 +182,17 @@ def gen_bad(rng):
     return rng.choice([True, False, None, 1.5, 0.0])
 
 
-def gen_val(rng, depth, bad):
+def gen_val(rng, depth, bad, big=True):
     k = rng.random()
     if depth <= 0 or k < 0.3:
         if bad and rng.random() < 0.25:
             return gen_bad(rng)
-        return gen_scalar(rng)
+        return gen_scalar(rng, big=big and not bad)      # never both a TypeError cause and an over-cap int: see RULE
     n = rng.choice([0, 1, 1, 2, 2, 3, 4])
     if k < 0.55:
-        return [gen_val(rng, depth - 1, bad) for _ in range(n)]
+        return [gen_val(rng, depth - 1, bad, big) for _ in range(n)]
     if k < 0.7:
-        return tuple(gen_val(rng, depth - 1, bad) for _ in range(n))
+        return tuple(gen_val(rng, depth - 1, bad, big) for _ in range(n))
     d = {}
     bytes_keys = rng.random() < 0.25
     for _ in range(n):
@@ -121,7 +201,7 @@ def gen_val(rng, depth, bad):
             key = key.encode()
         if bad and rng.random() < 0.12:
             key = rng.choice([1, (1, 2), None, key.encode() if isinstance(key, str) else key.decode()])
-        d[key] = gen_val(rng, depth - 1, bad)
+        d[key] = gen_val(rng, depth - 1, bad, big)
     if rng.random() < 0.5:      # shuffle insertion order
         items = list(d.items())
         rng.shuffle(items)
@@ -134,7 +214,9 @@ def to_sx(v):
         return sx(v)
     if isinstance(v, float):
         return "f"
-    if isinstance(v, (int, str, bytes)):
+    if isinstance(v, int):
+        return int_atom(v)
+    if isinstance(v, (str, bytes)):
         return sx(v)
     if isinstance(v, list):
         return "(L " + " ".join(to_sx(x) for x in v) + ")"
@@ -218,7 +300,7 @@ def real_decode(bdecode, data):
     try:
         shown = show_dec(r)
     except TypeError:      # a result bdecode cannot produce on the unchanged tree (e.g. a non-string dict key)
-        shown = "<unrenderable %s>" % repr(r)[:80].replace("\n", " ")
+        shown = "<unrenderable %s>" % rep(r)[:80].replace("\n", " ")
     return "ok %s %d" % (shown, len(data) - f.tell())
 
 
@@ -246,6 +328,10 @@ MALFORMED_CORPUS = [
     b"l" * 40 + b"e" * 40, b"l" * 40 + b"e", b"l" * 40, b"l" * 40 + b"e" * 41, b"d1:a" * 20 + b"e" * 20, b"d1:a" * 20 + b"e",
     b"ld1:ald1:ali1eeeeee", b"ld1:ald1:ali1eeeee", b"ld1:ald1:ali1eeee", b"lxe", b"l e", b"l\ne", b"d e", b"i1e\n", b"le\n", b" le",
     b"\xffle", b"\x00", b"l\x00e", b"L", b"D", b"I1e", b"E",
+    # the digit cap of int(): 4300 digit characters pass, 4301 do not (leading zeros count; sign, underscores, blanks do not)
+    b"i" + b"1" * 4300 + b"e", b"i" + b"1" * 4301 + b"e", b"i-" + b"9" * 4300 + b"e", b"i-" + b"9" * 4301 + b"e",
+    b"i" + b"0" * 4301 + b"e", b"i" + b"0" * 4299 + b"7e", b"i " + b"1_" * 4299 + b"1 e", b"i" + b"1_" * 4300 + b"1e",
+    b"li1e" + b"i" + b"1" * 4301 + b"ee", b"0" * 4300 + b"1:a", b"0" * 4299 + b"1:a", b"0" * 4301 + b":",
 ]
 
 
@@ -263,7 +349,7 @@ def gen_malformed(rng, bencode):
     alphabet = b"ilde0123456789:-_ +\n\xffa"
     if k < 0.45:
         # mutate a real encoding
-        b = bytearray(bencode(gen_val(rng, rng.choice([1, 2, 2, 3]), bad=False)))
+        b = bytearray(bencode(gen_val(rng, rng.choice([1, 2, 2, 3]), bad=False, big=False)))
         for _ in range(rng.choice([1, 1, 1, 2, 3])):
             m = rng.random()
             pos = rng.randrange(len(b) + 1)
@@ -342,6 +428,12 @@ def run(ctx):
         {b"\xff": 1, b"a": 2}, {b"\xff": 1, b"\xfe": 2, b"": 3}, {"a": 1, "aa": 2, "": 3, "a\x00": 4}, {"b": 1, "a": {"d": 1, "c": 2}},
         {"\U0001f600": 1, "\uffff": 2}, 0, -7, 10 ** 18, 2 ** 63, -(2 ** 63) - 1, "x" * 300, [[[[[[[[]]]]]]]],
     ]
+    # ints at and beyond the str() digit cap, bare and nested; (n, m) with hex digits of n = decimal digits of m
+    corpus += BIG_INTS
+    corpus += [[CAP_POW], [1, [CAP_POW - 1]], {"a": -CAP_POW}, {"a": [1, {"b": 16 ** 3600}]}, (CAP_POW - 1, CAP_POW), {"k": CAP_POW - 1},
+               [True, CAP_POW], [CAP_POW, True], {"a": CAP_POW, "b": None}, {1: CAP_POW}]   # last four: both causes, class not compared
+    for n, m in digit_twins(rng):
+        corpus += [n, m, -n, -m, [n], [m], {"a": n}, {"a": m}, ["x", n, "y"], ["x", m, "y"]]
     cases.extend(corpus)
     for i in range(ctx.n(3000, 40000)):
         cases.append(gen_val(rng, rng.choice([1, 2, 2, 3, 4]), bad=(i % 4 == 0)))
@@ -353,40 +445,48 @@ def run(ctx):
         try:
             b = bencode(v)
             impl = b.hex()
-        except TypeError:
+        except (TypeError, ValueError) as e:
             b = None
-            impl = "!TypeError"
+            impl = "!" + type(e).__name__
         try:
             c = canon(v)
         except TypeError:
             c = None
-        ctx.case(key=None if trivial(v) else (c if c is not None else ("rej", repr(v))),
-                 sample={"value": repr(v)[:120], "bencode": impl[:80]},
-                 kind=type(v).__name__, outcome="rejected" if b is None else "encoded")
-        if mo != impl:
-            ctx.mismatch("bencode bytes differ from model enc∘norm", case=repr(v), model=mo, impl=impl)
+        big = over_cap(v)
+        ctx.case(key=None if trivial(v) and not big else (c if c is not None else ("rej", rep(v))),
+                 sample={"value": rep(v)[:120], "bencode": impl[:80]},
+                 kind=type(v).__name__, outcome="rejected" if b is None else "encoded",
+                 int_cap="beyond" if big else "within")
+        if c is None and big:
+            # a TypeError cause and an over-cap int: which exception comes first depends on the writing order, the model
+            # answers TypeError; only rejected-vs-accepted is compared
+            if mo.startswith("!") != impl.startswith("!"):
+                ctx.mismatch("bencode accepts what the model rejects (or the reverse)", case=rep(v), model=mo[:200], impl=impl[:200])
+        elif mo != impl:
+            ctx.mismatch("bencode bytes / exception class differ from the model (encodeE)", case=rep(v), model=mo[:400], impl=impl[:400])
         # --- property oracle on the implementation
         if c is None:
             if b is not None:
                 ctx.violation("C14-accepts-unencodable", "bencode accepted a bool/None/float/non-string-keyed value",
-                              case=repr(v), expected="TypeError", actual=impl)
+                              case=rep(v), expected="TypeError", actual=impl[:200])
             continue
         if b is None:
-            ctx.violation("C14-rejects-encodable", "bencode rejected an encodable structure", case=repr(v),
-                          expected="bytes", actual="TypeError")
+            if not big:      # an int beyond the str() cap is not encodable on this Python: rejecting it is what the property allows
+                ctx.violation("C14-rejects-encodable", "bencode rejected an encodable structure", case=rep(v),
+                              expected="bytes", actual=impl)
             continue
         encodings.append((b, c))
         prev = table.setdefault(b, (c, v))
         if prev[0] != c:
             ctx.violation("C14-collision", "two different structures have the same encoding",
-                          case={"a": repr(prev[1]), "b": repr(v)}, expected="different bytes", actual=impl)
+                          case={"a": rep(prev[1])[:6000], "b": rep(v)[:6000]}, expected="different bytes", actual=impl[:400])
         try:
             back = canon_decoded(bdecode(b))
         except Exception as e:  # noqa: BLE001
             back = "!" + type(e).__name__
         if back != c:
             ctx.violation("C14-decode-roundtrip", "bdecode(bencode(x)) is not x (up to str/bytes, list/tuple)",
-                          case=repr(v), expected=repr(c)[:300], actual=repr(back)[:300])
+                          case=rep(v)[:6000], expected=rep(c)[:300], actual=rep(back)[:300])
     # key-order oracle: permuting insertion order never changes the bytes
     for i in range(ctx.n(300, 3000)):
         d = gen_val(rng, 2, bad=False)
@@ -395,9 +495,13 @@ def run(ctx):
         items = list(d.items())
         rng.shuffle(items)
         d2 = dict(items)
-        ctx.case(key=("perm", repr(sorted(map(repr, d.items())))), order="permuted-dict")
-        if bencode(d) != bencode(d2):
-            ctx.violation("C14-key-order", "dict insertion order changes the encoding", case={"a": repr(d), "b": repr(d2)},
+        ctx.case(key=("perm", repr(sorted(map(rep, d.items())))), order="permuted-dict")
+        try:
+            e1, e2 = bencode(d), bencode(d2)
+        except ValueError:      # an int beyond the str() cap inside: rejected in either order
+            continue
+        if e1 != e2:
+            ctx.violation("C14-key-order", "dict insertion order changes the encoding", case={"a": rep(d), "b": rep(d2)},
                           expected="equal bytes", actual="different")
 
     # ---------------------------------------------------------------- decoder: model `decode` vs real `bdecode`
@@ -442,7 +546,7 @@ def run(ctx):
             if back != c or used != enc_len:
                 ctx.violation("C14-decode-roundtrip", "bdecode of an encoding (followed by other bytes) does not return the "
                               "encoded structure or reads past its end", case={"bytes": b.hex(), "kind": kind},
-                              expected=(repr(c)[:200], enc_len), actual=(repr(back)[:200], used))
+                              expected=(rep(c)[:200], enc_len), actual=(rep(back)[:200], used))
 
 
 def replay(ctx, case):
